@@ -51,6 +51,7 @@ type c19case struct {
 	AnyPort   bool   `json:"anyPort"`
 	FirstSeen bool   `json:"firstSeen"`
 	Wild      bool   `json:"wild"`  // dgram/server: the server listens on wildcard (dual-stack) sockets
+	Gap       bool   `json:"gap"`   // dgram/server: the negotiated client ports are P and P+5
 	Early     bool   `json:"early"` // steal/conn: the intruder connection used the session id (OPTIONS) before streaming began
 	Proto     string `json:"proto"`
 	How       string `json:"how"`
@@ -501,6 +502,7 @@ type c19vic struct {
 	sid   string
 	url   string
 	socks []*net.UDPConn // rtp0, rtcp0, rtp1, rtcp1 (UDP transports)
+	gap   bool           // UDP: the RTCP socket of a pair is bound to the RTP port + 5
 }
 
 func (v *c19vic) close() {
@@ -533,13 +535,16 @@ func (v *c19vic) do(req *base.Request) error {
 	return nil
 }
 
-func c19transport(proto string, track int, record bool, rtpPort int) base.HeaderValue {
+func c19transport(proto string, track int, record bool, rtpPort int, rtcpPorts ...int) base.HeaderValue {
 	th := headers.Transport{}
 	d := headers.TransportDeliveryUnicast
 	th.Delivery = &d
 	if proto == "udp" {
 		th.Protocol = headers.TransportProtocolUDP
 		th.ClientPorts = &[2]int{rtpPort, rtpPort + 1}
+		if len(rtcpPorts) == 1 {
+			th.ClientPorts[1] = rtcpPorts[0]
+		}
 	} else {
 		th.Protocol = headers.TransportProtocolTCP
 		th.InterleavedIDs = &[2]int{track * 2, track*2 + 1}
@@ -554,24 +559,39 @@ func c19transport(proto string, track int, record bool, rtpPort int) base.Header
 
 func (v *c19vic) setup(proto string, track int, record bool) error {
 	port := 0
+	var rtcpPorts []int
 	if proto == "udp" {
 		c0, c1, err := c19pair(c19ipPeer)
 		if err != nil {
 			return err
 		}
-		v.socks = append(v.socks, c0, c1)
 		port = c19port(c0)
+		if v.gap {
+			// RTCP from P+5; P+1 stays free for whoever wants to send from it
+			c1.Close()
+			if c1, err = c19listen(c19ipPeer, port+5); err != nil {
+				c0.Close()
+				return err
+			}
+		}
+		v.socks = append(v.socks, c0, c1)
+		rtcpPorts = []int{c19port(c1)}
 	}
 	return v.do(&base.Request{
 		Method: base.Setup,
 		URL:    bed.MustURL(v.url + "/trackID=" + strconv.Itoa(track)),
-		Header: base.Header{"Transport": c19transport(proto, track, record, port)},
+		Header: base.Header{"Transport": c19transport(proto, track, record, port, rtcpPorts...)},
 	})
 }
 
 // c19victim connects from 127.0.0.1 and brings a session to state over proto ("udp" | "tcp").
 // c19victimHook, when set, runs right before the victim starts streaming (PLAY / RECORD).
 func c19victim(bd *bed.Bed, state, proto string, hooks ...func(v *c19vic)) (*c19vic, error) {
+	return c19victimGap(bd, state, proto, false, hooks...)
+}
+
+// c19victimGap: as c19victim; gap = the client ports of every UDP SETUP are P and P+5.
+func c19victimGap(bd *bed.Bed, state, proto string, gap bool, hooks ...func(v *c19vic)) (*c19vic, error) {
 	before := func(v *c19vic) {
 		for _, h := range hooks {
 			h(v)
@@ -585,7 +605,7 @@ func c19victim(bd *bed.Bed, state, proto string, hooks ...func(v *c19vic)) (*c19
 	if err != nil {
 		return nil, err
 	}
-	v := &c19vic{peer: peer}
+	v := &c19vic{peer: peer, gap: gap}
 	switch state {
 	case "prePlay", "play":
 		v.url = bd.URL("stream")
@@ -667,7 +687,8 @@ func c19dgramServer(c *c19case, js string, s *vt.Sink, seed int64) error {
 		ctx.Session.OnPacketRTPAny(seen.onRTP)
 		ctx.Session.OnPacketRTCPAny(seen.onRTCP)
 	}
-	v, err := c19victim(bd, "record", "udp")
+	var vhooks []func(v *c19vic)
+	v, err := c19victimGap(bd, "record", "udp", c.Gap, vhooks...)
 	if err != nil {
 		fail("victim", err)
 		return nil
@@ -712,6 +733,15 @@ func c19dgramServer(c *c19case, js string, s *vt.Sink, seed int64) error {
 	actual := c.Src
 	if c.Src == "peer" {
 		socks = []*net.UDPConn{peerSock}
+	} else if c.Gap && c.Src == "port" && c.Proto == "rtcp" {
+		// the port next to the RTP one: where RTCP would come from had the pair been consecutive
+		sk, lerr := c19listen(c19ipPeer, c19port(v.socks[0])+1)
+		if lerr != nil {
+			fail("sources", lerr)
+			return nil
+		}
+		socks = []*net.UDPConn{sk}
+		defer c19closeAll(socks)
 	} else {
 		socks, actual, err = c19sources(c.Src, c19port(peerSock))
 		if err != nil {
